@@ -74,6 +74,20 @@ func c16Check(c *C16Case) string {
 			return fmt.Sprintf("length() through one name (%s) over the values %s: outcome %s %s, lengths %q, want %q", c.Keys[0], c.S, o.Class, o.Msg, strings.ReplaceAll(string(o.Stdout), "\n", " "), c.Sep)
 		}
 		return ""
+	case "bigsplit":
+		// a receiver holding the separator tens of thousands of times (taken from the document)
+		n := 0
+		fmt.Sscan(c.Keys[0], &n)
+		text := strings.Repeat(c.S+c.Sep, n)
+		prog := "{ s = $.s ; sep = $.sep ; p = s.split(sep) ; bytes = 0 ; long = 0\n" +
+			"for (x in p) { bytes = bytes + x.length() ; if (x.length() > " + fmt.Sprint(len(c.S)) + ") { long++ } }\n" +
+			"print p.length(), bytes, long, p[0], p[p.length() - 2], p[-1].length() }"
+		o := run.InProc(prog, []run.InFile{{Name: "in", Data: []byte(docOf(`"s":`+gen.JSONString(text), `"sep":`+gen.JSONString(c.Sep)))}}, nil, run.Opts{Budget: 2_000_000_000})
+		want := fmt.Sprintf("%d %d 0 %s %s 0\n", n+1, n*len(c.S), c.S, c.S)
+		if o.Class != "ok" || string(o.Stdout) != want {
+			return fmt.Sprintf("(%q + %q) x %d split at %q: outcome %s %s, pieces / piece bytes / pieces longer than %q / first / last but one / length of last: got %q, want %q", c.S, c.Sep, n, c.Sep, o.Class, o.Msg, c.S, clip(string(o.Stdout)), want)
+		}
+		return ""
 	case "rawsplit":
 		// observed through lengths and an in-program re-join (JSON cannot carry the bytes)
 		prog := "BEGIN { s = \"" + c.S + "\"; sep = \"" + c.Sep + "\"; p = s.split(sep); j = \"\"; n = 0\n" +
@@ -626,6 +640,18 @@ func TestC16(t *testing.T) {
 	excl.ArrayAlias = rec.KnownActive("KF-array-alias", false)
 	rec.ReplayTier()
 
+	if sh, _ := shardInfo(); sh == 0 {
+		for _, n := range []int{1000, 65534, 65535, 65536, 65537, 70000, 200000} {
+			for _, sep := range []string{",", "ab"} {
+				c := &C16Case{Family: "bigsplit", S: "x", Sep: sep, Keys: []string{fmt.Sprint(n)}}
+				msg := c16Check(c)
+				rec.Case(fmt.Sprintf("bigsplit %d %q", n, sep), n >= 65535, "family-bigsplit")
+				if msg != "" {
+					rec.Violation("contract", c, "(split of a long string)", msg)
+				}
+			}
+		}
+	}
 	check(rec, "contract-random", scale(20000, 20000000), func(rt *rapid.T) {
 		c, labels := genC16(rt)
 		msg := c16Check(c)
